@@ -41,10 +41,10 @@ FD_DECLARED = {}
 def cases(tier, seed):
     rng = np.random.default_rng(1000 + seed)
     out = []
-    nmodel = 36 if tier == "quick" else 320
+    nmodel = 36 if tier == "quick" else 300
     for k in range(nmodel):
         kind = ["geom", "aero", "aero", "struct", "as", "as"][k % 6]
-        out.append(dict(kind="model", model=kind, seed=int(rng.integers(1 << 30)), corner=int(k // 6) % 4, jitter=1 if tier == "quick" else 2, idx=k,
+        out.append(dict(kind="model", model=kind, seed=int(rng.integers(1 << 30)), corner=int(k // 6) % 4, jitter=1 if tier == "quick" else 2, idx=k, big=bool(tier == "thorough" and k % 3 == 0),
                         _cost={"geom": 1, "aero": 4, "struct": 3, "as": 8}[kind]))
     nst = 12 if tier == "quick" else 80
     for k in range(nst):
@@ -58,13 +58,13 @@ def gen_model(c):
     rng = np.random.default_rng(c["seed"])
     corner = c["corner"]
     kind = c["model"]
-    ny_choices = [2, 3, 4, 5, 6]
+    ny_choices = [2, 3, 4, 5, 6] if not c.get("big") else [5, 6, 7, 8, 9, 10, 11]
 
     def spec_for(half, fancy=True):
         ny = int(rng.choice(ny_choices))
         if half == "full":
             ny = max(3, ny | 1)
-        spec = M.random_spec(rng, half=half, nx=int(rng.integers(2, 5)), ny=ny)
+        spec = M.random_spec(rng, half=half, nx=int(rng.integers(2, 5 if not c.get("big") else 7)), ny=ny)
         spec.update(root_chord=float(np.round(max(spec["root_chord"], spec["span"] / 9.0), 3)), taper=max(spec["taper"], 0.5))
         return spec
 
